@@ -102,7 +102,7 @@ theorem whileNeg_core (cx : Cx) (fuel : Nat) (env : Src.Env) (he : EnvOK cx env)
       rw [e]
       refine R2.silL (lab_jump hitJ jump_isJump) ?_
       rw [htgt1]; exact hPh
-    exact loop_body_run cx hPe sL eB _ hpBlk (tbl b).length _ hagB m' j' hex' hinB hafter
+    exact loop_body_run cx hPe sL eB _ hpBlk (tbl b).length _ hagB m' j' hex' hinB (fun _ => hafter)
   have hhead : ∀ m j, ExitsOK cx m j s env ∧ R2 cx m j ⟨r, i0 + (ops.length + 6)⟩ k → R2 cx m j ⟨r, i0⟩ (tbl b).length := by
     refine loop_ind (fun m j => ExitsOK cx m j s env ∧ R2 cx m j ⟨r, i0 + (ops.length + 6)⟩ k)
       (fun m j m' j' h hlt => ⟨h.1.down j' hlt, h.2.down j' hlt⟩) (fun m j j' h hle => ⟨h.1.monoJ hle, h.2.monoJ hle⟩) ?_
@@ -223,7 +223,7 @@ theorem whilePos_core (cx : Cx) (fuel : Nat) (env : Src.Env) (he : EnvOK cx env)
     have hafter : R2 cx m' j' ⟨r, i0 + 3 + ops.length + 2⟩ (tbl b).length := by
       have e : i0 + 3 + ops.length + 2 = i0 + ops.length + 5 := by omega
       rw [e]; exact hQh
-    exact loop_body_run cx hPe sL eB _ hpBlk (tbl b).length _ hagB m' j' hex' hinB hafter
+    exact loop_body_run cx hPe sL eB _ hpBlk (tbl b).length _ hagB m' j' hex' hinB (fun _ => hafter)
   have hhead : ∀ m j, ExitsOK cx m j s env ∧ R2 cx m j ⟨r, i0 + (ops.length + 8)⟩ k →
       R2 cx m j ⟨r, i0 + ops.length + 5⟩ (tbl b).length := by
     refine loop_ind (fun m j => ExitsOK cx m j s env ∧ R2 cx m j ⟨r, i0 + (ops.length + 8)⟩ k)
